@@ -19,6 +19,7 @@ import (
 	"fmt"
 	"os"
 	"path/filepath"
+	"runtime"
 	"runtime/debug"
 	"sort"
 	"strconv"
@@ -557,6 +558,13 @@ func main() {
 			histClock = append(histClock, [2]string{h, cl})
 		}
 	}
+	// every terminal call runs on a goroutine of its own while the harness
+	// goroutine waits: one or two Ps avoid waking idle threads a million times
+	procs := 2
+	if v, err := strconv.Atoi(os.Getenv("C06_PROCS")); err == nil && v > 0 {
+		procs = v
+	}
+	oldProcs := runtime.GOMAXPROCS(procs)
 	outer := 0
 	comboSeen := map[string]bool{}
 	groupWall := map[string]float64{}
@@ -605,6 +613,7 @@ func main() {
 		groupWall[g] += time.Since(t1).Seconds()
 		groupCases[g] += evals - e1
 	}
+	runtime.GOMAXPROCS(oldProcs)
 	scratch.Close()
 	os.Remove(scratch.Name())
 	inproc := evals
